@@ -306,6 +306,27 @@ func registerReflect() {
 		}
 		return Str{s: "<" + v.T.String() + " Value>"}
 	}
+	I["(reflect.Value).Convert"] = func(e *Engine, caller *frame, fn *ssa.Function, args []Value) Value {
+		v := rv(args, "Convert")
+		u := args[1].(Iface)
+		if u.T == nil {
+			reflectPanic("nil type passed to Value.Convert")
+		}
+		target := u.V.(RType).T
+		if !types.ConvertibleTo(v.T, target) {
+			reflectPanic("value of type %s cannot be converted to type %s", v.T, target)
+		}
+		if types.Identical(v.T.Underlying(), target.Underlying()) {
+			return RValue{T: target, V: v.V}
+		}
+		if _, isIface := target.Underlying().(*types.Interface); isIface {
+			if _, srcIface := v.T.Underlying().(*types.Interface); srcIface {
+				return RValue{T: target, V: v.V}
+			}
+			return RValue{T: target, V: Iface{T: v.T, V: v.V}}
+		}
+		return RValue{T: target, V: e.conv(target, v.T, v.V)}
+	}
 	I["(reflect.Value).Call"] = func(e *Engine, caller *frame, fn *ssa.Function, args []Value) Value {
 		v := rv(args, "Call")
 		sig, ok := v.T.Underlying().(*types.Signature)
